@@ -39,6 +39,7 @@ type Obligation struct {
 	errText    string
 	static     bool   // decided by the sweep, not by a solver
 	staticFail string // non-empty: what the sweep found
+	pairBefore *Obligation // vacuity pair: the same point before an assumed contract was applied
 }
 
 // VC holds the verification conditions of one function.
@@ -323,6 +324,25 @@ func (vc *VC) oblige(class, name string, props []string, goal string, cl *Clause
 		}
 	}
 	return vc.oblige1(class, name, props, implies(hyp, goal), cl)
+}
+
+// coverCalls (thorough tier): after every call whose contract is assumed, check
+// that the assumptions have not become contradictory.
+var coverCalls bool
+
+// coverQuick: one second per consistency cover instead of three.
+var coverQuick bool
+
+// coverPoint makes a reachability obligation for the current program point
+// (not recorded; the caller decides).
+func (vc *VC) coverPoint(name string) *Obligation {
+	vc.seq++
+	key := "cover:" + name
+	vc.counters[key]++
+	if n := vc.counters[key]; n > 1 {
+		name = fmt.Sprintf("%s#%d", name, n)
+	}
+	return &Obligation{Name: vc.fn.RelString(vc.fn.Pkg.Pkg) + "/cover:" + name, Class: "cover", Props: []string{"*"}, Func: vc.fn.String(), vc: vc, blk: vc.curBlk, seq: vc.seq, reach: vc.curReach, goal: "true", ExpectSat: true}
 }
 
 func (vc *VC) oblige1(class, name string, props []string, goal string, cl *Clause) *Obligation {
